@@ -11,6 +11,11 @@ NOTE = ("Trusted base: go/types + go/ssa (x/tools v0.29.0) as a faithful model o
 
 # id -> (built?, technique, level text, design_ref, reason-if-not-built)
 P = {
+ "C09": (True, "lockset guarded-by with helper summaries, channel-operation shape rules, lock-order graph, blocking reachability (go/ssa)",
+         "Decides for every schedule: the registration maps/flags are only touched under the registration mutex (write lock for writes), the New announcement has a single locked call site dominated by !Valid with Valid=true stored first, "
+         "hand-off sends are non-blocking with counted drops and a fixed worker pool, every blocking wait in the pipeline includes the stop signal, lock order is acyclic and nothing blocking runs under the registration lock except the reviewed Redis publish. "
+         "These are necessary conditions for race-freedom, announce-once, non-stalling overload and bounded shutdown; serializability and lost updates are not decided.",
+         "4/C09"),
  "C13": (True, "lockset analysis (may/must) + dominance on go/ssa",
          "Decides on all paths: no registrar mutex is re-acquired while possibly held (the RWMutex reader re-entrancy deadlock), "
          "one selector snapshot per request, every access to the selector under its mutex, reload parses outside the lock, stores only on success, all locks released. "
